@@ -64,7 +64,7 @@ PROPS = {
     'C07': {
         'correspondence': CORR_L2,
         'coq': ['theories/L2/PropsC07.vo', 'theories/L2/Inst.vo', 'theories/Inst/Fut_now.vo', 'theories/Inst/Jobs_now.vo'],
-        'profiles': [prof('fut', (100, 20), (2500, 60)), prof('sweep:wake_sweep.progs', (0, 2), (0, 12)), prof('progs:fut_extra.progs', (0, 60), (0, 1500)), prof('progs:fsync_pool0.progs', (0, 40), (0, 1000))],
+        'profiles': [prof('fut', (100, 20), (2500, 60)), prof('sweep:wake_sweep.progs', (0, 2), (0, 12)), prof('progs:fut_extra.progs', (0, 60), (0, 1500)), prof('progs:fsync_pool0.progs', (0, 40), (0, 1000)), prof('progs:letgo.progs', (0, 60), (0, 1500))],
         'monitors': ['C07', 'C03'], 'liveness': True, 'panics': True,
         'trusted_base': L2_TRUST,
         'assumptions': ['proved (C07_full_L2): a result is resolved at most once, only after the operation signalled, with its own value; no would-panic state is reachable; poll stores the task waker in the critical section in which it found the result missing and signal takes and calls it; the task invariant (Inv_task) holds in every reachable state; and C07_complete_L2: with >= 1 pool runner, in every terminal state with all events fired every actor is done (each awaiting caller has received its result, each pool runner is idle). With zero pool runners: C06_zero_pool_L2. The model is ONE queue; several objects by exploration'],
